@@ -67,6 +67,8 @@ def apply_rep(da, act):
         return da.copy(data=view)
     if act == "cast32":
         return da.astype("float32")
+    if act == "bigendian":
+        return da.copy(data=np.asarray(da.values).astype(da.dtype.newbyteorder(">")))
     if act in ("roll1", "roll_seam"):
         nd = da.sizes["dir"]
         # stored sequence starts one bin later / starts at the last direction (seam between the first two stored)
